@@ -65,6 +65,8 @@ func main() {
 		err = core.RunSched(w, *seed, *tier, *replay)
 	case "wire":
 		err = core.RunWire(w, *seed, *tier, *replay)
+	case "pubsub":
+		err = core.RunPubSub(w, *seed, *tier, *replay)
 	case "gen-facts":
 		err = core.GenFacts(*leanDir)
 	default:
